@@ -49,6 +49,21 @@ def _creating_calls(fn, pathparam):
     return out
 
 
+FS_MUTATORS = {'remove', 'unlink', 'rename', 'replace', 'rmdir', 'rmtree', 'move', 'copy', 'copyfile', 'copy2',
+               'truncate', 'symlink', 'link', 'touch', 'write_text', 'write_bytes', 'mkdir', 'makedirs', 'chmod'}
+
+
+def _destination_modifiers(fn, pathparam):
+    """Calls that change the destination other than by creating/truncating it (remove, rename, ...)."""
+    out = []
+    for c in calls_in(fn):
+        nm = call_name(c) or ''
+        short = nm.split('.')[-1]
+        if short in FS_MUTATORS and any(isinstance(a, ast.Name) and a.id == pathparam for a in ast.walk(c)):
+            out.append(c)
+    return out
+
+
 def _node_of(cfg, sub):
     """CFG node whose statement contains ast node `sub`."""
     best = None
@@ -163,6 +178,14 @@ def r2(ctx):
         snodes = [_node_of(cfg, c) for c in ser]
         first = _node_of(cfg, creates[0])
         tnodes = [_node_of(cfg, c) for c in creates]
+        mods = _destination_modifiers(fn, pathparam)
+        mnodes = [_node_of(cfg, c) for c in mods]
+        if mods and not cfg.must_pass(mnodes, snodes):
+            ctx.bad(fi.qualname, 'destination-touched-before-serialise',
+                    f'{fmt} writer: `{norm(mods[0])}` changes the destination on a path that has not completed the '
+                    'serialisation; if serialising then fails (bad option, unserialisable region) the destination is no '
+                    'longer as it was', fi.loc(mods[0]))
+            continue
         if not cfg.must_pass(tnodes, snodes):
             ctx.bad(fi.qualname, 'open-before-serialise',
                     f'{fmt} writer: a path reaches the destination-creating call '
